@@ -258,6 +258,7 @@ func c11History(c *mon.Ctx, r *mon.Rand) {
 		}
 		c.Class("histories-with-more-than-12-tag-keys", 1)
 	}
+	zeroTwins := r.Fork(909).Chance(1, 4)
 	rc := rootCfg{Prefix: prefix, Sep: ".", Tags: rootTags}
 	ts := vNewTest(prefix, copyTagMap(rootTags), uint(r.Range(0, 4)))
 	nsc := r.Range(1, 4)
@@ -388,7 +389,22 @@ func c11History(c *mon.Ctx, r *mon.Rand) {
 					} else {
 						m.V = r.ValueSpec(6)
 					}
-					if r.Chance(1, 8) {
+					if zeroTwins {
+						// this history's histograms all have the bounds {0} or {-2,2},
+						// as values or as durations: specifications of the two kinds
+						// whose identities and converted bounds coincide
+						if r.Bool() {
+							m.V, m.D = []float64{0}, []time.Duration{0}
+						} else {
+							m.V, m.D = []float64{-2, 2}, []time.Duration{-2 * time.Second, 2 * time.Second}
+						}
+						if m.IsDur {
+							m.V = nil
+						} else {
+							m.D = nil
+						}
+						c.Class("histograms-of-cross-kind-twin-specifications", 1)
+					} else if r.Chance(1, 8) {
 						// a specification without bounds (empty, not nil): one bucket
 						// of the requested kind that covers everything
 						m.V, m.D = m.V[:0], m.D[:0]
